@@ -335,6 +335,44 @@ func TestC18_WalletLock(t *testing.T) {
 				t.Fatalf("reload+unlock differs from the original wallet")
 			}
 		}
+		// a bip44 wallet can derive addresses while it is locked; their secret keys are filled in at the next unlock and must
+		// be the keys of exactly those addresses - the unlocked wallet equals one that generated the same addresses unlocked
+		if kind == kBip && rapid.Bool().Draw(t, "grow_locked") {
+			nExt, nChg := rapid.IntRange(0, 2).Draw(t, "grow_ext"), rapid.IntRange(0, 2).Draw(t, "grow_chg")
+			twin, err := w.Unlock(pw) // the same wallet, unlocked, grows the same way
+			if err != nil {
+				t.Fatalf("Unlock: %v", err)
+			}
+			for _, x := range []struct {
+				w wallet.Wallet
+			}{{w}, {twin}} {
+				if nExt > 0 {
+					if _, err := x.w.GenerateAddresses(wallet.OptionGenerateN(uint64(nExt))); err != nil {
+						t.Fatalf("generate external: %v", err)
+					}
+				}
+				if nChg > 0 {
+					if _, err := x.w.GenerateAddresses(wallet.OptionGenerateN(uint64(nChg)), wallet.OptionChange()); err != nil {
+						t.Fatalf("generate change: %v", err)
+					}
+				}
+			}
+			grown, err := w.Unlock(pw)
+			if err != nil {
+				t.Fatalf("Unlock after growing while locked: %v", err)
+			}
+			ge, _ := grown.GetEntries()
+			te, _ := twin.GetEntries()
+			if fmt.Sprint(ge) != fmt.Sprint(te) {
+				t.Fatalf("bip44 wallet that grew while locked (+%d external, +%d change) unlocks to different entries than the same wallet grown unlocked:\n locked-grown  %v\n unlocked-grown %v", nExt, nChg, ge, te)
+			}
+			for _, e := range ge {
+				if err := e.Verify(); err != nil {
+					t.Fatalf("entry %s of the unlocked wallet is inconsistent: %v", e.Address, err)
+				}
+			}
+			r.Count("bip44_grew_while_locked")
+		}
 		r.Count("wallet_" + string(kind) + "_" + string(ct))
 		nt := len(entriesBefore) > 0
 		r.Case(nt, locked)
